@@ -10,7 +10,7 @@ out.append("All changes below compile, pass the repository's 187 unit tests + 7 
            "`VERIF_REPO=<worktree> bin/check <ID>` at the quick tier; a detection means exit 1 with a `VIOLATION` line whose minimised replay file reproduced the same violation class in a fresh OS process.\n")
 out.append("## 1. Changes written by independent sub-agents (`/verif/seeded/<id>/`)\n")
 out.append("Each sub-agent was given only the text of one property and its own scratch worktree of /repo (nothing from /verif) and asked for three realistic changes "
-           "that need something specific to manifest, each with a demonstration that fails with the change and passes without it; later rounds (ids `-r2m*`, `-r3m*`) were "
+           "that need something specific to manifest, each with a demonstration that fails with the change and passes without it; later rounds (ids `-r2m*` ... `-r7m*`) were "
            "additionally given a one-line description of every change already proposed for that property and asked for breakages of a different nature. "
            "I confirmed every change myself (column *confirmed*: demonstration on the clean tree / repository suite with the change / demonstration with the change) before keeping it.\n")
 out.append("| id | breaks | what it needs to manifest | confirmed | detected by (quick tier) | first attempt | note |")
